@@ -163,6 +163,49 @@ func init() {
 			e.callValue(nil, s.fn, s.args)
 			return nil
 		},
+		// vfRunSpawnedToBlock(i): runs recorded goroutine i until it returns (false) or blocks (true); a goroutine
+		// that blocks stays parked for good (its frames are dropped, the state it changed stays)
+		"vfRunSpawnedToBlock": func(e *Exec, fn *ssa.Function, a []Value) (res Value) {
+			i := e.argInt(a[0], "vfRunSpawnedToBlock")
+			s := e.spawned[i]
+			depth, ddepth := len(e.callStack), len(e.deferFrame)
+			res = e.ts.False
+			defer func() {
+				if r := recover(); r != nil {
+					pe, ok := r.(pathEnd)
+					if !ok || pe.kind != "blocked" {
+						panic(r)
+					}
+					e.callStack = e.callStack[:depth]
+					e.deferFrame = e.deferFrame[:ddepth]
+					res = e.ts.True
+				}
+			}()
+			e.callValue(nil, s.fn, s.args)
+			return res
+		},
+		// vfRunToBlock(f): runs f as if it were another goroutine: until it returns (false) or blocks (true)
+		"vfRunToBlock": func(e *Exec, fn *ssa.Function, a []Value) (res Value) {
+			depth, ddepth := len(e.callStack), len(e.deferFrame)
+			res = e.ts.False
+			defer func() {
+				if r := recover(); r != nil {
+					pe, ok := r.(pathEnd)
+					if !ok || pe.kind != "blocked" {
+						panic(r)
+					}
+					e.callStack = e.callStack[:depth]
+					e.deferFrame = e.deferFrame[:ddepth]
+					res = e.ts.True
+				}
+			}()
+			e.callValue(nil, a[0], nil)
+			return res
+		},
+		"vfBlockHook": func(e *Exec, fn *ssa.Function, a []Value) Value {
+			e.extra["block_hook"] = a[0]
+			return nil
+		},
 		"vfDropSpawned": func(e *Exec, fn *ssa.Function, a []Value) Value {
 			e.spawned = nil
 			return nil
@@ -347,6 +390,23 @@ func init() {
 		s := a[0].(Struct)
 		return e.ts.Bin(OpAdd, e.ts.Bin(OpMul, s[1].(*Term), e.ts.Const(64, 1000)), e.ts.Bin(OpUDiv, s[0].(*Term), e.ts.Const(64, 1000000)))
 	}
+	// timers never fire under the executor (the clock is the harness's): NewTimer gives a Timer whose channel stays
+	// empty, Stop / Reset report "was active"
+	stubs["time.NewTimer"] = func(e *Exec, fn *ssa.Function, a []Value) Value {
+		pt := fn.Signature.Results().At(0).Type().(*types.Pointer)
+		st := pt.Elem().Underlying().(*types.Struct)
+		v := e.zero(pt.Elem()).(Struct)
+		for i := 0; i < st.NumFields(); i++ {
+			if st.Field(i).Name() == "C" {
+				v[i] = &Chan{cap: 1}
+			}
+		}
+		cell := new(Value)
+		*cell = v
+		return cell
+	}
+	stubs["(*time.Timer).Stop"] = func(e *Exec, fn *ssa.Function, a []Value) Value { return e.ts.True }
+	stubs["(*time.Timer).Reset"] = func(e *Exec, fn *ssa.Function, a []Value) Value { return e.ts.True }
 	stubs["time.Sleep"] = func(e *Exec, fn *ssa.Function, a []Value) Value {
 		if h, ok := e.extra["sleep_hook"]; ok {
 			e.call(h, []Value{a[0]})
